@@ -126,3 +126,68 @@ Definition kn_impl_gen (fs fe : bool) (c : corpus) (n : nat) (o : options) : res
   let '(tab, stats) := adjust fs fe n o (sorted_counts n (events c)) in
   finish_with n o tab stats.
 Definition kn_impl := kn_impl_gen true true.
+
+(* ---- Interpolate (lm/builder/interpolate.cc), bottom up as the code computes it: MergeRight has stored with every kept
+   n-gram its uninterpolated probability and the interpolation weight of its context; Callback::Enter combines them with
+   probs_[order-1], the interpolated probability of the SUFFIX n-gram, which the JointOrder traversal must have entered
+   just before -- it throws "Detected n-gram without matching suffix" when the suffix is not in the lower stream.
+   (The merge-join of JointOrder itself is represented by a lookup; the streams are in suffix order by C05_adjust_counts_refines_spec.) *)
+Section Interp.
+  Variable n : nat.
+  Variable tab : list (list entry).
+  Variable ds : list disc.
+  Variable interp : bool.
+
+  Definition uninterp (k : nat) (e : entry) : Q * Q :=
+    let g := e_gram e in
+    let w := hd UNK g in
+    if (k =? 1)%nat then
+      if (w =? BOS)%N then (1, 0)
+      else if interp then ((if (w =? UNK)%N then 0 else u tab ds 1 g), gamma tab ds 1 [])
+      else ((if (w =? UNK)%N then gamma tab ds 1 [] else u tab ds 1 g), 0)
+    else (u tab ds k g, gamma tab ds k (tl g)).
+  Definition uniform : Q := 1 / QN (vocab_size tab).
+
+  Definition lower_prob (k : nat) (prev : list arpa) (g : gram) : option Q :=
+    if (k =? 1)%nat then Some uniform
+    else option_map a_prob (find (fun a => geqb (a_gram a) (removelast g)) prev).
+
+  Fixpoint interp_order (k : nat) (prev : list arpa) (es : list entry) : list arpa + gram :=
+    match es with
+    | [] => inl []
+    | e :: t =>
+        let g := e_gram e in
+        match lower_prob k prev g with
+        | None => inr g
+        | Some lower =>
+            match interp_order k prev t with
+            | inr x => inr x
+            | inl r => inl (mkA g (Qred (fst (uninterp k e) + snd (uninterp k e) * lower)) (Qred (backoff n tab ds k g)) :: r)
+            end
+        end
+    end.
+
+  Fixpoint interp_orders (ks : list nat) (prev : list arpa) : list (list arpa) + gram :=
+    match ks with
+    | [] => inl []
+    | k :: ks' =>
+        match interp_order k prev (filter kept (ents tab k)) with
+        | inr g => inr g
+        | inl cur => match interp_orders ks' cur with inl r => inl (cur :: r) | inr g => inr g end
+        end
+    end.
+End Interp.
+
+Inductive result2 := Refused2 (order : nat) | NoSuffix2 (g : gram) | Built2 (m : model).
+Definition lift_result (r : result) : result2 := match r with Refused k => Refused2 k | Built m => Built2 m end.
+
+(* the pipeline with the streaming AdjustCounts and the bottom-up interpolation *)
+Definition kn_pipeline (c : corpus) (n : nat) (o : options) : result2 :=
+  let '(tab, stats) := adjust true true n o (sorted_counts n (events c)) in
+  match all_discounts (o_fallback o) 1 stats with
+  | inr k => Refused2 k
+  | inl ds => match interp_orders n tab ds (o_interp_uni o) (seq 1 n) [] with
+              | inr g => NoSuffix2 g
+              | inl orders => Built2 (mkM (map s_count_pruned stats) ds orders)
+              end
+  end.
